@@ -369,10 +369,11 @@ fn check_op(rep: &Reporter, vars: &[VarDef], optional_on: bool, remap: bool, cnt
 /// declarations and operation declarations). Every combination of them x which outputs are configured is generated by
 /// the real binary and must equal, byte for byte, what the library entry points give for the same configuration text.
 fn part_cli(args: &RunArgs, rep: &Reporter) -> J {
-    use crate::clilayer::{CProj, run_and_compare};
+    use crate::clilayer::{CProj, run_and_compare, run_and_compare_after};
     let docs: Vec<String> = crate::c12::var_matrix_docs().into_iter().step_by(if args.quick() { 9 } else { 3 }).collect();
     let ops: Vec<(String, String)> = docs.iter().enumerate().map(|(i, t)| (format!("src/q{i:03}.graphql"), t.clone())).collect();
     let mut configs: Vec<(String, CProj)> = vec![];
+    let mut coords: Vec<(Option<bool>, bool, bool, usize, bool)> = vec![];
     for optional in [None, Some(true), Some(false)] {
         for resolvers in [false, true] {
             for server in [false, true] {
@@ -394,6 +395,7 @@ fn part_cli(args: &RunArgs, rep: &Reporter) -> J {
                         }
                         p.extra_generate = y;
                         configs.push((format!("allowUndefinedAsOptionalInput={optional:?} resolvers={resolvers} server={server} mode={mode} remap={remap}"), p));
+                        coords.push((optional, resolvers, server, mode, remap));
                     }
                 }
             }
@@ -418,11 +420,39 @@ fn part_cli(args: &RunArgs, rep: &Reporter) -> J {
             }
         }
     });
+    // histories: the project was generated under a configuration that differs in one input-type option only (the
+    // option's next value, or the other scalar mapping); then only the configuration file is edited and generate runs
+    // again. The second run must leave what a run in a clean directory leaves.
+    let histories = AtomicU64::new(0);
+    crate::explore::par_for(configs.len() * 2, args.threads, |k| {
+        let (i, which) = (k / 2, k % 2);
+        let (o, r, sv, m, rm) = coords[i];
+        let earlier = if which == 0 {
+            let next = match o { None => Some(true), Some(true) => Some(false), Some(false) => None };
+            coords.iter().position(|c| *c == (next, r, sv, m, rm))
+        } else {
+            coords.iter().position(|c| *c == (o, r, sv, m, !rm))
+        };
+        let Some(j) = earlier else { return };
+        let (tag, p) = &configs[i];
+        let case = |extra: J| json!({"part": "cli-history", "generated_first_under": configs[j].0, "then_under": tag, "config_text": p.yaml(), "detail": extra});
+        histories.fetch_add(1, Ordering::Relaxed);
+        match run_and_compare_after(Some(&configs[j].1), p, "c09") {
+            Err(pn) => rep.report(Violation { key: format!("cli.library_panic@{}", pn.key()), what: format!("library entry points panic at {}: {}", pn.site, pn.msg), case: case(json!({})) }),
+            Ok(Err(e)) => rep.report(Violation { key: "machinery.clilayer".into(), what: e, case: case(json!({})) }),
+            Ok(Ok(r)) => {
+                files.fetch_add(r.files_compared as u64, Ordering::Relaxed);
+                for (k, w) in &r.diffs {
+                    rep.report(Violation { key: format!("cli.after_a_configuration_edit.{k}"), what: format!("generated under [{}], configuration edited to [{tag}], generated again: {w}", configs[j].0), case: case(json!({"cli_exit": r.cli.code, "cli_stdout": r.cli.stdout.chars().take(2000).collect::<String>()})) });
+                }
+            }
+        }
+    });
     crate::cli::cleanup("c09");
     if accepted.load(Ordering::Relaxed) as usize != configs.len() {
         rep.report(Violation { key: "machinery.c09_cli_projects".into(), what: format!("only {} of {} configurations were accepted by both routes", accepted.load(Ordering::Relaxed), configs.len()), case: json!({}) });
     }
-    json!({"configurations": configs.len(), "operation_files": ops.len(), "files_compared_bytewise": files.load(Ordering::Relaxed)})
+    json!({"configurations": configs.len(), "histories_generate_edit_configuration_generate": histories.load(Ordering::Relaxed), "operation_files": ops.len(), "files_compared_bytewise": files.load(Ordering::Relaxed)})
 }
 
 pub fn run(args: &RunArgs) -> i32 {
